@@ -94,7 +94,11 @@ func RunGoBatch(progs []string, perRun time.Duration) ([]GoResult, error) {
 		if err := os.WriteFile(filepath.Join(dir, "main.go"), []byte(b.String()), 0o644); err != nil {
 			return nil, err
 		}
-		cmd := exec.Command("go", "build", "-o", bin, ".")
+		// The reference programs are compiled WITHOUT optimisation and inlining: go1.23.5's optimiser was
+		// observed to miscompile `(n + id(math.MinInt64)) % 4` (it prints 1 where the specification, the
+		// unoptimised build and the interpreter give -3), and to make recover() effective in a merely
+		// called function literal once the deferred function is inlined into its wrapper.
+		cmd := exec.Command("go", "build", "-gcflags=batch/...=-N -l", "-o", bin, ".")
 		cmd.Dir = dir
 		cmd.Env = env
 		out, err := cmd.CombinedOutput()
